@@ -232,7 +232,7 @@ CLAIMED = {
          "call sequences only. Trusted: Coq kernel; clang ASan/UBSan runtime; the access extractor (regex over the C sources).",
     technique="Coq proof (index bounds of the flat-array layout) + access table regenerated from the C sources + sanitizer oracle", ref="§5 C17"),
  "C10": dict(
-    text="Coq theorems for six of the seven classes, for every instance: GraphPartitioning (C10_gp_value: the QUSO is A (sum z)^2 + B cut; C10_gp_ground: on an even number of vertices of a simple graph with A > B min(2 maxdegree, N)/8 every ground state is balanced, has energy B*cut and no balanced partition cuts less -- moving one vertex off the larger side always pays), SetCover with unary and logarithmic counters (C10_setcover_value: the QUBO is B*weight + A*sum of per-element penalties; C10_setcover_ground: with A > B > 0 and weights <= 1 every ground state chooses a cover of least weight and has energy B*weight -- repair argument plus explicit counter values; C10_setcover_valid), BILP (C10_bilp_value, C10_bilp_ground: with A > B*sum|c_i| "
+    text="Coq theorems for all seven classes, for every instance: JobSequencing with unary and logarithmic slack (C10_js_value; C10_js_ground: with A > B * largest length every ground state gives each job to exactly one worker, has worker 0 the most loaded with exact slack, energy B * makespan, and no assignment has a smaller makespan; C10_js_valid), GraphPartitioning (C10_gp_value: the QUSO is A (sum z)^2 + B cut; C10_gp_ground: on an even number of vertices of a simple graph with A > B min(2 maxdegree, N)/8 every ground state is balanced, has energy B*cut and no balanced partition cuts less -- moving one vertex off the larger side always pays), SetCover with unary and logarithmic counters (C10_setcover_value: the QUBO is B*weight + A*sum of per-element penalties; C10_setcover_ground: with A > B > 0 and weights <= 1 every ground state chooses a cover of least weight and has energy B*weight -- repair argument plus explicit counter values; C10_setcover_valid), BILP (C10_bilp_value, C10_bilp_ground: with A > B*sum|c_i| "
          "and integer data every ground state is feasible and optimal and the ground energy is B*c.x; C10_bilp_valid), VertexCover (C10_vc_value: the QUBO is B*|x| + A*sum "
          "of per-edge penalties that vanish exactly on covered edges and are >= 1 otherwise; C10_vc_ground: with A > B > 0 "
          "every ground state is a vertex cover of minimum size and the ground energy is B times that size -- by the repair "
@@ -242,8 +242,7 @@ CLAIMED = {
          "operations as the source and is tied to /repo by exact comparison of the produced matrices (all log_trick / M / "
          "weight settings), and the full property (is_solution_valid, convert_solution, ground states for admissible and "
          "default weights, solve_bruteforce) is checked on the implementation by combinatorial oracles on small instances.",
-    note="PARTIAL: no ground-state theorem is claimed for JobSequencing "
-         "(and the periodic chain with N <= 2, where the closing coupling coincides with an existing key); for those the check rests on the exact matrix correspondence plus the enumeration oracle. Trusted: Coq kernel "
+    note="Ground-state theorems are stated under the documented thresholds with the instance hypotheses spelled out (integer lengths, simple graphs with unit-interval weights and an even number of vertices, weights <= 1, M at least its default); the periodic chain for N >= 3. Trusted: Coq kernel "
          "+ vm_compute; no axioms; hand-written model of qubovert/problems; harness.",
     technique="Coq proof (value identities; exchange / repair arguments for ground states) + exact matrix correspondence + combinatorial oracle", ref="§5 C10"),
 }
